@@ -857,6 +857,33 @@ theorem nested_chain_equals_monolithic (lds : List LinDisc) (items : List Item)
   have h4 := h3 hpre
   exact h4
 
+/-- The inner MDAs of the `MDAChain` over a listing of items (`inner_mdas`) are exactly the groups
+    of the sequence that require an MDA; in particular the singleton group of a self-coupled
+    `MDOChain` is one of them, the singleton group of an MDA built beforehand never is. -/
+theorem mem_nestedInnerMdas (ds : List Disc) (items : List Item) (g : List Nat) :
+    g ∈ nestedInnerMdas ds items ↔
+      g ∈ (sequence (items.map (Item.disc ds))).flatten ∧
+        requiresMdaK (items.map (Item.disc ds)) (kindAt items) g = true := by
+  unfold nestedInnerMdas
+  exact List.mem_filter
+
+theorem self_coupled_chain_item_gets_inner_mda (ds : List Disc) (items : List Item) (i : Nat)
+    (ms : List Nat) (hi : items[i]? = some (Item.chain ms))
+    (hg : [i] ∈ (sequence (items.map (Item.disc ds))).flatten)
+    (hs : selfCoupledAt (items.map (Item.disc ds)) i = true) :
+    [i] ∈ nestedInnerMdas ds items := by
+  rw [mem_nestedInnerMdas]
+  refine ⟨hg, (singleton_requires_mda_iff _ _ i).2 ⟨hs, ?_⟩⟩
+  simp [kindAt, hi, Item.kind]
+
+theorem prebuilt_mda_item_gets_no_inner_mda (ds : List Disc) (items : List Item) (i : Nat)
+    (ms : List Nat) (gs : Bool) (hi : items[i]? = some (Item.mda ms gs)) :
+    [i] ∉ nestedInnerMdas ds items := by
+  rw [mem_nestedInnerMdas]
+  rintro ⟨_, h⟩
+  have := ((singleton_requires_mda_iff _ _ i).1 h).2
+  simp [kindAt, hi, Item.kind] at this
+
 /-! Non-vacuity and witness: `A: y = 1 + x/2`, `B: x = y/2` wrapped in one `MDOChain [A, B]`.
     The chain reads `x` (nobody produced it before `A`) and produces it: self-coupled. The MDA chain
     solves `x = 2/3, y = 4/3`; one sweep of the chain from `x = 0` gives `x = 1/2, y = 1`. -/
